@@ -649,7 +649,9 @@ def compare_session(sess, obs, answer: str) -> tuple[int, str] | None:
             if msg:
                 return (i, f"doe ({op['mode']}): samples differ from the model: {msg}")
             if op["mode"] == "exec":
-                msg = B.near(B.parse_matrix(a["U"]), B.fmat(o["us"]) if o["us"].size else [])
+                us = B.fmat(o["us"]) if o["us"].size else []
+                msg = (B.near_custom_unit(space, B.parse_matrix(a["U"]), us) if op["req"]["algo"] == "CustomDOE"
+                       else B.near(B.parse_matrix(a["U"]), us))
                 if msg:
                     return (i, f"doe (exec): lib.unit_samples differ from the model: {msg}")
         else:
